@@ -356,6 +356,24 @@ def standin_combination_powers(tier, seed):
                 fails.append(dict(args=dict(combination=repr(lc), exponent=k), failed="linear-combination-power", clause="LinearCombinationOfGates ** k is not the matrix power"))
         if len(fails) >= 3:
             break
+    # powers of Pauli strings with a unit coefficient c = exp(i pi phi): (c P)**t = exp(i pi phi t) P**t, for one qubit exactly as for several
+    import cmath
+    a_, b_ = cirq.LineQubit.range(2)
+    for c in (1, -1, 1j, -1j, np.exp(0.3j), np.exp(-2.0j)):
+        phi = cmath.polar(c)[1] / np.pi
+        for P in (cirq.X, cirq.Y, cirq.Z):
+            for t in (0.5, 0.25, 2, -0.5, 1.5, 3, -1, 1):
+                cases += 1
+                for label, ps, Pm in (("one qubit", c * P(a_), cirq.unitary(P)), ("two qubits", c * P(a_) * cirq.Z(b_), np.kron(cirq.unitary(P), cirq.unitary(cirq.Z)))):
+                    try:
+                        got = cirq.unitary(ps ** t)
+                    except Exception:
+                        continue
+                    w, v = np.linalg.eigh(Pm)
+                    want = np.exp(1j * np.pi * phi * t) * (v @ np.diag([1 if x > 0 else np.exp(1j * np.pi * t) for x in w]) @ v.conj().T)
+                    if got.shape == want.shape and not np.allclose(got, want, atol=1e-8):
+                        fails.append(dict(args=dict(pauli_string=repr(ps), exponent=t), failed="pauli-string-power",
+                                          clause=f"({label}) (c P)**t is not exp(i pi phi t) P**t with c = exp(i pi phi): the coefficient's phase is not raised to the power"))
     return dict(function="cirq-core/cirq/linalg/operator_spaces.py:pow_pauli_combination + ops/linear_combinations.py:LinearCombinationOfGates.__pow__", case="combination-powers",
                 bound="coefficient 4-tuples over {0, +-1, i, 0.5, 0.3+0.2i, 2} (all 2401 in the thorough tier) x exponents 0..5", cases=cases, distinct=cases, failures=len(fails),
                 exhaustive=(tier != "quick"), _fails=fails[:3])
